@@ -2,4 +2,5 @@
 EXTENDS BandwidthOpt
 cVals3 == {0, 1, 2, 3}
 cVals2 == {0, 1, 3}
+cVals01 == {0, 2}
 ====
